@@ -153,6 +153,58 @@ def engine_cyc(bd, wd, quick, seed, traces, case_files, verdict):
         c2 = json.loads(p.stdout.strip().splitlines()[-1])
         ev["counterexamples_of_other_variant"].update({"replayed": c2["behaviours"],
                                                        "impl_differs_from_that_variant": c2["mismatches"]})
+    # -- firewalls in the mechanism model: termination of the transitive-firewall repair, the known findings
+    #    reproduced at the mechanism level, and run-by-run conformance on the two firewall families
+    chain_fixed = status.get("FX_FW_TFC_RECURSION") == "fixed"
+    envs = {"FAMILY": os.path.join(vp.SPECS, "cyc_fw_small.ndjson"), "SHARD": "0", "SHARDS": "1"}
+    envg = {"FAMILY": os.path.join(vp.SPECS, "cyc_gate_small.ndjson"), "SHARD": "0", "SHARDS": "1"}
+    r_t = vp.tlc("EngineCycMC", cfg="EngineCycMC_fwterm.cfg", env=envs, workers=4, timeout=900, check_ok=False)
+    r_tn = vp.tlc("EngineCycMC", cfg="EngineCycMC_fwterm_nochain.cfg", env=envs, workers=4, timeout=900, check_ok=False)
+    r_kf = vp.tlc("EngineCycMC", cfg=f"EngineCycMC_{coded}.cfg", env=envs, workers=2, timeout=600, check_ok=False)
+    r_kg = vp.tlc("EngineCycMC", cfg=f"EngineCycMC_{coded}.cfg", env=envg, workers=2, timeout=600, check_ok=False)
+    ev["firewalls_in_the_model"] = {
+        "tfc_repair_with_chain_terminates": r_t["ok"], "states": r_t["distinct"],
+        "tfc_repair_without_chain_runs_out_of_fuel": "Terminates" in r_tn["invariant_violated"],
+        "model_reproduces_KF_FW_ON_CYCLE (Correct violated on a firewall-on-cycle program)": "Correct" in r_kf["invariant_violated"],
+        "model_reproduces_the_KF_TFC_call_site_on_a_gated_cycle": "Correct" in r_kg["invariant_violated"]}
+    states += r_t["distinct"] + r_tn["distinct"] + r_kf["distinct"] + r_kg["distinct"]
+    if chain_fixed and not (r_t["ok"] and ev["firewalls_in_the_model"]["tfc_repair_without_chain_runs_out_of_fuel"]):
+        raise vp.ToolError("EngineCyc: the transitive-firewall repair model does not behave as expected (chain holds / no chain refuted):\n"
+                           + r_t["out"][-1500:] + r_tn["out"][-1500:])
+    cfgf = os.path.join(wd, "EngineCycMC_gen_fw.cfg")
+    open(cfgf, "w").write(open(cfgg).read().replace("TfcChain = TRUE", f"TfcChain = {'TRUE' if chain_fixed else 'FALSE'}"))
+    ev["firewall_families_predicted"] = {}
+    for variant in ("fw", "gate"):
+        famv = os.path.join(wd, f"cycm_{variant}_family.ndjson")
+        vp.run(["python3", os.path.join(vp.ROOT, "tools", "gen_cyc.py"), famv, str(seed + 13), "30", "60" if quick else "200", "--" + variant])
+        # the model has no projections: the projection consumers of these families read as Normal queries
+        progs = []
+        for l in open(famv):
+            pr = json.loads(l)
+            for nd in pr["prog"]["nodes"]:
+                if nd["kind"] == "Pj":
+                    nd["kind"] = "Nm"
+            progs.append(json.dumps(pr))
+        open(famv, "w").write("\n".join(progs) + "\n")
+        rg = vp.tlc("EngineCycMC", cfg=cfgf, env={"FAMILY": famv, "SHARD": "0", "SHARDS": "1"}, workers=1, timeout=1500, check_ok=False,
+                    extra=["-simulate", f"num={150 if quick else 2000}", "-depth", "40", "-seed", str(seed + 17)])
+        behv = os.path.join(wd, f"cycm_{variant}_beh.ndjson")
+        nb = _json_lines(rg["out"], behv)
+        if nb == 0:
+            raise vp.ToolError(f"EngineCycMC generated no behaviour for the {variant} family:\n" + rg["out"][-2000:])
+        trv = os.path.join(wd, f"cycm_{variant}_replay.ndjson")
+        pv = _limited(bd, "eng_seq", ["--out", trv, "--mode", "replay", "--cyc", "1", "--dump", "1", "--in", behv])
+        if pv.returncode != 0:
+            verdict.violation(f"no_progress: the harness process died (rc={pv.returncode}) while replaying EngineCyc behaviours of the {variant} family",
+                              {"property": PID, "kind": "no_progress", "origin": f"EngineCyc {variant} family", "rc": pv.returncode})
+            continue
+        pc = vp.run(["python3", os.path.join(vp.ROOT, "tools", "cyc_conform.py"), "compare", behv, trv])
+        cv = json.loads(pc.stdout.strip().splitlines()[-1])
+        ev["firewall_families_predicted"][variant] = {k: cv[k] for k in ("behaviours", "queries_compared", "executor_runs_compared",
+                                                                         "state_snapshots_compared", "same_runs_in_another_order", "mismatches")}
+        if cv["mismatches"]:
+            vp.log(f"[C06] MODEL-DRIFT: {cv['mismatches']} of {cv['behaviours']} behaviours of the {variant} family differ from EngineCyc's "
+                   f"prediction: {json.dumps(cv['first'][:1])[:600]}")
     ev["model_states"] = states
     return ev, states
 
